@@ -13,6 +13,7 @@ from lbry.wallet.transaction import Transaction, Output
 from lbry.schema.claim import Claim
 from lbry.dht.constants import DATA_EXPIRATION
 from lbry.blob.blob_info import BlobInfo
+from lbry.stream.descriptor import sanitize_file_name
 
 if typing.TYPE_CHECKING:
     from lbry.blob.blob_file import BlobFile
@@ -687,7 +688,8 @@ class SQLiteStorage(SQLiteMixin):
                 delete_stream(transaction, descriptor)  # this will also delete the content claim
                 store_stream(transaction, sd_blob, descriptor)
                 transaction.executemany("update blob set is_mine=1 where blob_hash=?", mine).fetchall()
-                store_file(transaction, descriptor.stream_hash, os.path.basename(descriptor.suggested_file_name),
+                # the descriptor's suggested_file_name is whatever its publisher wrote
+                store_file(transaction, descriptor.stream_hash, sanitize_file_name(descriptor.suggested_file_name),
                            download_directory, 0.0, 'stopped', content_fee=content_fee)
                 if content_claim:
                     transaction.execute("insert or ignore into content_claim values (?, ?, ?)", content_claim)
